@@ -1080,6 +1080,8 @@ def drv_errors_and_edge_sources(tier, seed):
       ('generator', 'def g():\n  yield 1\n  yield 2\nlist(g())'),
       ('closure-over-global', 'k = 3\nf = lambda a: a + k\nf(1)'),
       ('system-exit-is-not-swallowed-silently', 'x = 1\nraise KeyError("k")'),
+      ('program-raises-TimeoutError', 'x = 1\nraise TimeoutError("slow")'),
+      ('program-raises-subclass-of-OSError', 'x = 1\nraise FileNotFoundError(2, "nothing there")'),
       ('multi-line-statement-error', 'x = [1,\n 2,\n 3 // 0]\n'),
       ('semicolons', 'a = 1; b = 2; a + b'),
       ('unicode-and-strings', 's = "é\\n"\ns * 2'),
@@ -1544,9 +1546,342 @@ def drv_sandboxed_run(tier, seed):
   return rec.result()
 
 
+
+# ---------------------------------------------------------------------------
+# What travels back from the sandbox: every kind of result VALUE, through every
+# way of asking for the output, is the value plain execution yields; only an
+# error the program RAISES is reported as a (code) error.
+# ---------------------------------------------------------------------------
+
+class UserError(Exception):
+  """An exception class of an importable module: instances cross a process boundary."""
+
+
+class TwoArgError(Exception):
+  """pickle.dumps works, pickle.loads does not (the constructor wants two arguments)."""
+
+  def __init__(self, a, b):
+    super().__init__(f'{a}-{b}')
+
+
+def _value_globals():
+  import pickle
+  return {
+      'ERR': LookupError('handed in'), 'UERR': UserError, 'E2': TwoArgError,
+      'SER': pg.coding.SerializationError('not raised', ValueError('c')),
+      'CERR': pg.coding.CodeError('1 // 0', ZeroDivisionError('z')),
+      'PICKLED_NONE': pickle.dumps(None), 'PICKLED_ERROR': pickle.dumps(ValueError('boom')),
+      'PICKLED_LIST': pickle.dumps([1, 2]),
+  }
+
+
+# (value class, name, program).  Every program ends in an expression statement or an
+# assignment to a name: the value of that statement is the result.
+VALUE_PROGRAMS = [
+    ('plain-value', 'none', 'None'),
+    ('plain-value', 'true', 'S.t'),
+    ('plain-value', 'int', 'hitcount_ + 41'),
+    ('plain-value', 'big-int', '2 ** 100'),
+    ('plain-value', 'float-nan-inf', '[float("nan"), float("-inf"), 0.5]'),
+    ('plain-value', 'complex', '1j * 2'),
+    ('plain-value', 'str-unicode', '"é\\n\\x00"'),
+    ('plain-value', 'nested-containers', '{"a": [1, (2, 3), {4}], (1, 2): frozenset([5]), None: range(3)}'),
+    ('plain-value', 'singletons', '(..., NotImplemented)'),
+    ('plain-value', 'assigned-by-the-last-statement', 'q = S.n + 1'),
+    ('plain-value', 'printed-and-returned', 'print("out")\nprint("more", end="")\nq = 2\nq * 3'),
+    ('falsy-value', 'zero', '0'),
+    ('falsy-value', 'false', 'S.f0'),
+    ('falsy-value', 'empty-str', '""'),
+    ('falsy-value', 'empty-list', '[]'),
+    ('falsy-value', 'empty-dict', '{}'),
+    ('falsy-value', 'empty-tuple', '()'),
+    ('falsy-value', 'empty-bytes', 'b""'),
+    ('falsy-value', 'zero-float', '0.0'),
+    ('bytes-value', 'bytes', 'b"\\x00\\xff abc"'),
+    ('bytes-value', 'bytearray', 'bytearray(b"ab")'),
+    ('bytes-value', 'bytes-that-are-the-pickle-of-None', 'PICKLED_NONE'),
+    ('bytes-value', 'bytes-that-are-the-pickle-of-an-exception', 'PICKLED_ERROR'),
+    ('bytes-value', 'bytes-that-are-the-pickle-of-a-list', 'q = PICKLED_LIST'),
+    ('bytes-value', 'bytes-that-are-half-a-pickle', 'PICKLED_LIST[:5]'),
+    ('class-or-function-value', 'builtin-class', 'int'),
+    ('class-or-function-value', 'exception-class', 'ValueError'),
+    ('class-or-function-value', 'base-exception-class', 'KeyboardInterrupt'),
+    ('class-or-function-value', 'builtin-function', 'len'),
+    ('class-or-function-value', 'class-of-a-module', 'UERR'),
+    ('exception-instance', 'built-by-a-call', 'ValueError("just a value, never raised")'),
+    ('exception-instance', 'no-arguments', 'KeyError()'),
+    ('exception-instance', 'several-arguments', 'OSError(2, "No such file")'),
+    ('exception-instance', 'kept-from-a-handled-error',
+     'try:\n  int("not a number")\nexcept ValueError as err:\n  caught = err\nprint("handled")\ncaught'),
+    ('exception-instance', 'looked-up-in-a-table', 'errors = dict(missing=KeyError("k"), bad=TypeError("t"))\nerrors["bad"]'),
+    ('exception-instance', 'assigned-by-the-last-statement', 'e = RuntimeError("r", 2)'),
+    ('exception-instance', 'handed-in-as-global-variable', 'ERR'),
+    ('exception-instance', 'class-of-a-module', 'UERR("u", 1)'),
+    ('exception-instance', 'TimeoutError', 'TimeoutError("Execution time exceed 60 seconds.")'),
+    ('exception-instance', 'StopIteration', 'StopIteration(3)'),
+    ('exception-instance', 'SyntaxError', 'SyntaxError("bad", ("f.py", 3, 1, "x ="))'),
+    ('exception-instance', 'exception-group', 'ExceptionGroup("g", [ValueError(1), KeyError("k")])'),
+    ('exception-instance', 'with-cause-and-context',
+     'try:\n  try:\n    {}[0]\n  except KeyError as k:\n    raise ValueError("v") from k\nexcept ValueError as err:\n  kept = err\nkept'),
+    ('exception-instance', 'pg-SerializationError', 'SER'),
+    ('exception-instance', 'pg-CodeError', 'CERR'),
+    ('base-exception-instance', 'KeyboardInterrupt', 'KeyboardInterrupt()'),
+    ('base-exception-instance', 'SystemExit', 'SystemExit(3)'),
+    ('base-exception-instance', 'GeneratorExit', 'q = GeneratorExit()'),
+    ('container-of-exceptions', 'list', '[ValueError("x"), 1, KeyError()]'),
+    ('container-of-exceptions', 'dict', '{"e": KeyError("k"), "cls": KeyError}'),
+    ('container-of-exceptions', 'tuple-of-result-and-error', '(None, TypeError("t"))'),
+    # values that cannot cross a process boundary: sandbox=None must fall back to this process
+    ('value-that-cannot-be-pickled', 'lambda', '(lambda: 1)'),
+    ('value-that-cannot-be-pickled', 'function-defined-in-program', 'def fn():\n  return 1\nfn'),
+    ('value-that-cannot-be-pickled', 'class-defined-in-program', 'class Kls:\n  pass\nKls'),
+    ('value-that-cannot-be-pickled', 'instance-of-program-class', 'class Kls:\n  pass\nk = Kls()'),
+    ('value-that-cannot-be-pickled', 'exception-instance-of-program-class', 'class Err(Exception):\n  pass\nErr("m")'),
+    ('value-that-cannot-be-pickled', 'generator', '(i for i in S.one)'),
+    ('value-that-cannot-be-pickled', 'module', 'import math\nmath'),
+    ('value-that-cannot-be-pickled', 'container-with-lambda', '[1, lambda: 2]'),
+    ('value-that-cannot-be-unpickled', 'exception-with-two-argument-constructor', 'E2("a", "b")'),
+    ('value-that-cannot-be-unpickled', 'container-of-such-an-exception', '[E2("a", "b")]'),
+]
+
+# Programs that RAISE: a code error with the cause and the line, whatever the class.
+RAISING_PROGRAMS = [
+    ('builtin-exception', 'ValueError', 'q = 1\nraise ValueError("v")'),
+    ('builtin-exception', 'raised-instance-from-a-table', 'errors = dict(bad=TypeError("t"))\nq = 1\nraise errors["bad"]'),
+    ('builtin-exception', 'handed-in-as-global-variable', 'q = 1\nq = 2\nraise ERR'),
+    ('program-raises-TimeoutError', 'TimeoutError', 'q = 1\nraise TimeoutError("slow")'),
+    ('builtin-exception', 'StopIteration', 'q = 1\nnext(iter(()))'),
+    ('builtin-exception', 'exception-group', 'raise ExceptionGroup("g", [ValueError(1)])'),
+    ('builtin-exception', 'with-cause', 'try:\n  {}[0]\nexcept KeyError as k:\n  raise ValueError("v") from k'),
+    ('exception-class-of-a-module', 'user-error', 'q = 1\nraise UERR("u")'),
+    ('pg-error-class', 'SerializationError', 'q = 1\nraise SER'),
+    ('pg-error-class', 'CodeError', 'q = 1\nraise CERR'),
+    ('exception-that-cannot-be-pickled', 'class-defined-in-program', 'class Err(Exception):\n  pass\nraise Err("m")'),
+    ('exception-that-cannot-be-unpickled', 'two-argument-constructor', 'q = 1\nraise E2("a", "b")'),
+]
+
+# classes whose (separately reported) behaviour does not depend on the entry point: one id each
+_ONE_ID_FOR_ALL_ENTRIES = ('exception-that-cannot-be-pickled', 'exception-that-cannot-be-unpickled',
+                           'program-raises-TimeoutError')
+
+VALUE_MODES = {'result-only': {}, 'outputs_intermediate': {'outputs_intermediate': True},
+               'returns_stdout': {'returns_stdout': True}}
+VALUE_ENTRIES = {        # name -> (sandbox argument, call)
+    'run(sandbox=True)': (True, lambda src, kw: pg.coding.run(src, sandbox=True, **kw)),
+    'run(sandbox=None)': (None, lambda src, kw: pg.coding.run(src, sandbox=None, **kw)),
+    'run()': (None, lambda src, kw: pg.coding.run(src, **kw)),          # the default IS the sandbox
+    'maybe_sandbox_call(evaluate, sandbox=True)': (
+        True, lambda src, kw: pg.coding.maybe_sandbox_call(pg.coding.evaluate, src, sandbox=True, **kw)),
+    'maybe_sandbox_call(evaluate, sandbox=None)': (
+        None, lambda src, kw: pg.coding.maybe_sandbox_call(pg.coding.evaluate, src, sandbox=None, **kw)),
+    'sandbox_call(evaluate)': (True, lambda src, kw: pg.coding.sandbox_call(pg.coding.evaluate, src, **kw)),
+}
+_VALUE_BY_NAME = {(c, n): s for c, n, s in VALUE_PROGRAMS + RAISING_PROGRAMS}
+
+
+def vnorm(v, depth=0):
+  """Typed structural form of a value: class and content, nothing that `==` blurs (True/1, b''/bytearray)."""
+  if depth > 6:
+    return ('deep',)
+  if isinstance(v, BaseException):
+    sub = tuple(vnorm(x, depth + 1) for x in v.exceptions) if isinstance(v, BaseExceptionGroup) else ()
+    return ('exception-instance', type(v).__name__, tuple(vnorm(a, depth + 1) for a in v.args), sub)
+  if isinstance(v, type):
+    return ('class', v.__name__)
+  if type(v).__name__ == 'module':
+    return ('module', v.__name__)
+  if type(v).__name__ == 'generator':
+    return ('generator',)
+  if callable(v) and hasattr(v, '__name__'):
+    return ('callable', type(v).__name__, v.__name__)
+  if isinstance(v, (list, tuple)):
+    return (type(v).__name__,) + tuple(vnorm(x, depth + 1) for x in v)
+  if isinstance(v, dict):
+    return ('dict',) + tuple((vnorm(k, depth + 1), vnorm(x, depth + 1)) for k, x in v.items())
+  if isinstance(v, (set, frozenset)):
+    return (type(v).__name__,) + tuple(sorted(repr(vnorm(x, depth + 1)) for x in v))
+  if isinstance(v, (bool, int, float, complex, str, bytes, bytearray, range, type(None), type(...), type(NotImplemented))):
+    return (type(v).__name__, repr(v))
+  return ('object', type(v).__name__)
+
+
+def _round_trips(v):
+  import pickle
+  try:
+    pickle.loads(pickle.dumps(v))
+    return True
+  except Exception:  # pylint: disable=broad-except
+    return False
+
+
+def _exec_values(src, g):
+  """Plain exec of the text: (outcome, raised exception or None, stdout, new variables, result), raw objects."""
+  before = dict(g)
+  out = io.StringIO()
+  result, err = None, None
+  tree = ast.parse(src)
+  last = tree.body[-1]
+  try:
+    with contextlib.redirect_stdout(out):
+      if isinstance(last, ast.Expr):
+        tree.body.pop()
+        exec(compile(tree, '<ref>', 'exec'), g)  # pylint: disable=exec-used
+        result = eval(compile(ast.Expression(last.value), '<ref>', 'eval'), g)  # pylint: disable=eval-used
+      else:
+        exec(compile(tree, '<ref>', 'exec'), g)  # pylint: disable=exec-used
+        if isinstance(last, ast.Assign):
+          result = g[last.targets[0].id]
+  except Exception as e:  # pylint: disable=broad-except
+    err = e
+  new = {k: v for k, v in g.items() if k != '__builtins__' and (k not in before or v is not before[k])}
+  return err, out.getvalue(), new, result
+
+
+def value_case(cls, name, entry, mode, grant='exactly-needed', timeout=60):
+  """One program of VALUE_PROGRAMS / RAISING_PROGRAMS through one sandboxed entry point.
+
+  None when the call hands back what plain exec of the text yields, else text."""
+  import multiprocessing
+  src = 'S.hit\n' + _VALUE_BY_NAME[(cls, name)]
+  hard, soft = classify(src)
+  need = perm_of(hard | soft)
+  counter = multiprocessing.Value('i', 0)
+  sandbox, call = VALUE_ENTRIES[entry]
+
+  def fresh():
+    g = {'S': SharedSentinel(counter), 'hitcount_': 0}
+    g.update(_value_globals())
+    return g
+  err, stdout, new, result = _exec_values(src, fresh())
+  kw = dict(VALUE_MODES[mode], global_vars=fresh(), timeout=timeout)
+  counter.value = 0
+  if grant == 'one-needed-flag-missing':
+    kw['permission'] = need & ~sorted(hard, key=FLAGS.index)[0]
+  elif grant == 'exactly-needed':
+    kw['permission'] = need
+  elif grant == 'all':
+    kw['permission'] = ALL
+  else:
+    raise ValueError(grant)
+  outcome, got, cause = 'ok', None, None
+  try:
+    with _child_processes_allowed():
+      got = call(src, kw)
+  except pg.coding.CodeError as e:
+    outcome, cause = 'CodeError', e
+  except BaseException as e:  # pylint: disable=broad-except
+    outcome, cause = 'raised-' + type(e).__name__, e
+  touched = counter.value
+  if grant == 'one-needed-flag-missing':
+    if outcome != 'CodeError' or not isinstance(cause.cause, SyntaxError) or touched:
+      return f'not refused: outcome {outcome}({cause!r:.200}), {touched} accesses of S happened'
+    return None
+  if err is not None:
+    lns = {fr.lineno for fr in traceback.extract_tb(err.__traceback__) if fr.filename == '<ref>'}
+    if sandbox is True and not _round_trips(err):
+      # the exception object itself cannot cross the process boundary: sandbox=True may say so, or
+      # report a code error at the right line with a stand-in cause; it may not hang or leak another error
+      if outcome == 'raised-SerializationError' or outcome == 'CodeError' and cause.lineno in lns:
+        return None
+    if outcome != 'CodeError':
+      return (f'exec raises {type(err).__name__}({str(err)!r:.80}); the call does not report a code error: '
+              f'{outcome}({cause!r:.200})')
+    if vnorm(cause.cause) != vnorm(err):
+      return f'exec raises {err!r:.100}, CodeError.cause is {cause.cause!r:.100}'
+    if cause.lineno not in lns:
+      return f'{type(err).__name__} raised at line {sorted(lns)}, CodeError.lineno = {cause.lineno}'
+    if cause.code != src:
+      return f'CodeError.code is not the program text: {cause.code!r:.100}'
+    return None
+  if mode == 'returns_stdout':
+    want = stdout
+  elif mode == 'outputs_intermediate':
+    want = dict(new, __result__=result, __stdout__=stdout)
+  else:
+    want = result
+  if outcome == 'raised-SerializationError' and sandbox is True and not _round_trips(want):
+    return None               # sandbox=True and the output cannot cross the process boundary
+  if outcome != 'ok':
+    if isinstance(want, BaseException) and vnorm(cause) == vnorm(want):
+      return (f'the program completes and its result is the value {want!r:.80}; that value was RAISED out of '
+              f'the call ({outcome}) instead of being returned')
+    return f'exec succeeds (result {result!r:.80}), the call: {outcome}({cause!r:.200})'
+  if not touched:
+    return 'the call reports success but the program never ran'
+  if mode == 'outputs_intermediate' and isinstance(got, dict):
+    got = {k: got[k] for k in sorted(got, key=lambda k: list(want).index(k) if k in want else 99)}
+  if vnorm(got) != vnorm(want):
+    return f'exec yields {want!r:.150}, the call returned {got!r:.150}'
+  return None
+
+
+def drv_sandbox_values(tier, seed):
+  quick = tier == 'quick'
+  combos = list(itertools.product(VALUE_ENTRIES, VALUE_MODES))
+  rec = Recorder(
+      'C19', 'what comes back from the sandbox: every kind of result value through every entry point and '
+             'output mode equals exec; only raised errors are errors',
+      scope=(f'{len(VALUE_PROGRAMS)} programs by kind of result value (plain, falsy, bytes incl. bytes that are '
+             'themselves pickles, classes / functions, exception INSTANCES built / caught / looked up / handed '
+             'in / of builtin, module and pyglove classes / groups / with cause, BaseException instances, '
+             'containers of exceptions, values that cannot be pickled or cannot be unpickled) + '
+             f'{len(RAISING_PROGRAMS)} programs that raise (same classes) x {len(VALUE_ENTRIES)} sandboxed entry '
+             f'points ({", ".join(VALUE_ENTRIES)}) x output mode (result only, outputs_intermediate, '
+             'returns_stdout) x permission {exactly needed, ALL}'
+             + (': result-only through every entry point, 3 of the 12 other combinations rotating' if quick else '')
+             + '; typed structural comparison with exec (class and args of exceptions, bool/int, bytes/bytearray); '
+             'sandbox=True may answer SerializationError only when the output does not survive pickling, '
+             'sandbox=None must then fall back; a raised error is a code error with exec\'s cause (class, args) and '
+             'line (sandbox=True and a cause that does not survive pickling: SerializationError or a code error at '
+             'the right line; never a hang - one program, 8 s limit - or another bare error); one needed flag '
+             'missing -> refused in every mode, nothing ran'))
+  hung = [0]
+
+  def emit(cid, cls, name, entry, mode, grant, timeout=60):
+    if hung[0] >= 3:
+      return
+    import time
+    t0 = time.time()
+    try:
+      msg = value_case(cls, name, entry, mode, grant, timeout)
+    except Exception as e:  # pylint: disable=broad-except
+      msg = f'unexpected {type(e).__name__}: {e}'
+    if msg and timeout >= 60 and time.time() - t0 >= timeout:
+      hung[0] += 1                  # a sandbox that hangs: reported three times, do not wait for the rest
+    rec.case(cid, (cls, name, entry, mode, grant), ok=msg is None,
+             message=f'{entry}, {mode}, permission {grant}: {msg}; code {"S.hit" + chr(10) + _VALUE_BY_NAME[(cls, name)]!r}',
+             witness=('import bounded.c19_permission as m\n'
+                      f'msg = m.value_case({cls!r}, {name!r}, {entry!r}, {mode!r}, {grant!r}, {timeout!r})\n'
+                      'assert msg is None, msg\n'))
+
+  for i, (cls, name, body) in enumerate(VALUE_PROGRAMS):
+    for j, (entry, mode) in enumerate(combos):
+      if quick and mode != 'result-only' and (i + j + seed) % 4:
+        continue
+      sandbox = VALUE_ENTRIES[entry][0]
+      grant = ('exactly-needed', 'all')[(i + j + seed) % 2]
+      for gr in ([grant] if quick else ['exactly-needed', 'all']):
+        emit(f'sandbox={sandbox}/result-value/{cls}/{mode}', cls, name, entry, mode, gr)
+    if classify('S.hit\n' + body)[0]:
+      entry, mode = combos[(i + seed) % len(combos)]
+      emit(f'sandbox={VALUE_ENTRIES[entry][0]}/refuse/{mode}', cls, name, entry, mode, 'one-needed-flag-missing')
+  for i, (cls, name, body) in enumerate(RAISING_PROGRAMS):
+    slow = cls == 'exception-that-cannot-be-pickled'    # known to end in the time limit: one short wait
+    for j, (entry, mode) in enumerate(combos):
+      if slow and (j != (seed % len(combos)) if quick else mode != 'result-only'):
+        continue
+      if quick and not slow and (i + j + seed) % 3:
+        continue
+      sandbox = VALUE_ENTRIES[entry][0]
+      emit(f'sandbox/raised-error/{cls}' if cls in _ONE_ID_FOR_ALL_ENTRIES
+           else f'sandbox={sandbox}/raised-error/{cls}', cls, name, entry, mode,
+           ('exactly-needed', 'all')[(i + j + seed) % 2], 8 if slow else 60)
+  return rec.result()
+
+
 DRIVERS = [drv_refusal_every_position, drv_refusal_expression_forms, drv_refusal_deep_nesting,
            drv_nested_scopes, drv_random_programs, drv_errors_and_edge_sources, drv_error_position,
-           drv_sandboxed_run]
+           drv_sandboxed_run, drv_sandbox_values]
 EXTRA_DRIVERS = [drv_refusal_implicit_forms]     # interpretation dependent, see docstring
 
 
